@@ -247,6 +247,11 @@ class WSStream:
                 # The app is already part way through a response of its
                 # own, a second one cannot be sent - drop the data.
                 return
+            elif self.state == ASGIWebsocketState.HTTPCLOSED:
+                # The app has refused the handshake with a complete
+                # response, there is nothing more to say on this stream.
+                await self.send(StreamClosed(stream_id=self.stream_id))
+                return
             # Closed first, so that the app cannot race a response of its own
             self.closed = True
             await self._send_error_response(400)
